@@ -5,6 +5,7 @@ CONSTANTS
   ExitOnFlag = FALSE
   LearnOnTerminal = FALSE
   DrainOnEnd = TRUE
+  RewardTotal = TRUE
 INIT FInit
 NEXT FNext
 CONSTRAINT FReport
